@@ -131,6 +131,24 @@ CHECKS = {
              "with the value printed as a bound identifier (template decided for all values) plus an auxiliary concrete list of hard floats.",
         note="finite quantifier exhausted; values universally quantified by carrying z3 terms through the real constructors and __eq__",
         ref="DESIGN.md §4 C19"),
+    "C18": dict(
+        text="(a) FractionValue float/order/==/copy and (b) barril Fraction + - * / % neg abs inv and comparisons against exact rational arithmetic: number "
+             "parts over ALL reals, numerators/denominators over ALL integers with |.|<=1e9, fractions.Fraction replaced by a representation-agnostic stand-in "
+             "(value term + fresh N, D>0 with N=value*D); z3 (NRA/NIA) proves every obligation on every path. (c) FractionScalar.GetValue(v) and the registered "
+             "FractionValue conversion equal Convert(u,v,float(value)) up to Fraction's SMALL normalisation, for affine and seeded unit pairs, and FractionScalar "
+             "validates like a Scalar of float(value) with a symbolic limit. (d) format/parse and CreateFromFloat: auxiliary concrete grid only.",
+        note="sub-clause (d) is NOT decided by the solver (C-level %g, locale, re, str(float)); it is sampled by a labelled auxiliary grid of 444 cases",
+        ref="DESIGN.md §4 C18"),
+    "C20": dict(
+        engine="crosshair+symx",
+        technique="CrossHair (z3) symbolic execution of the real renderers with symbolic integer exponents vs a reference renderer; symx driver for the end-to-end part",
+        text="CrossHair must report 'Confirmed over all paths' for the real _CreateUnitsWithJoinedExponentsString (k=1,2,3 factors; 4 thorough) and _MakeStr (k=1,2; "
+             "3,4 thorough) against a reference renderer for ALL integer exponents in [-4,4]; a canary condition must be refuted. End to end: every exponent "
+             "vector in [-4,4]^3 over m, s, kg built by the real operators - the unit string parsed back by an independent grammar parser recovers the joined "
+             "composing units, category/type/unit-name strings equal the reference, repeated quantity types under two categories sum correctly, every table unit "
+             "as a simple quantity returns its registered strings, repr/str show the unit.",
+        note="CrossHair 'Confirmed' is trusted; not-confirmed/timeout is exit 2; counterexamples are replayed through real Scalars before VIOLATION is printed",
+        ref="DESIGN.md §4 C20"),
 }
 
 NOT_APPLICABLE = {
